@@ -50,3 +50,22 @@ structure TableFeatures where
 deriving Repr
 
 end Distill
+
+namespace Distill
+/-- what the three third-party embed extractors read from a node.  The `…Root d` fields are
+`domutil.HasRootDomain(<the URL that extractor looks at>, d)`; the id fields are what the
+extractor's own URL helper returns for that URL. -/
+structure EmbedAtoms where
+  nodeNil : Bool := false
+  tag : String
+  ytRoot : String → Bool          -- on the (object/param-aware, `&`→`?` fixed, absolutised) src
+  ytId : String
+  vmRoot : String → Bool          -- on the absolutised src
+  vmId : String
+  twSrcRoot : String → Bool       -- on the raw src attribute (rendered tweet iframe)
+  tweetIdAttr : String            -- data-tweet-id
+  classTwitterTweet : Bool
+  nAnchors : Int
+  twAnchorRoot : String → Bool    -- on the absolutised href of the last anchor
+  tweetIdFromUrl : String
+end Distill
